@@ -81,6 +81,10 @@ func (s *State) evalIndexAssigment(which ast.Node, index, value object.Object) o
 			return s.NewError("index assignment out of bounds: " + index.Inspect())
 		}
 		elements := object.Elements(val)
+		if object.Constant(id.Literal()) {
+			// Big arrays are updated in place: work on a copy so a refused change of a constant leaves it intact.
+			elements = slices.Clone(elements)
+		}
 		elements[idx] = value
 		oerr := s.env.Set(id.Literal(), object.NewArray(elements))
 		if oerr.Type() == object.ERROR {
@@ -89,6 +93,9 @@ func (s *State) evalIndexAssigment(which ast.Node, index, value object.Object) o
 		return value
 	case object.MAP:
 		m := val.(object.Map)
+		if object.Constant(id.Literal()) {
+			m = m.Append(object.NewMap()) // copy: big maps are updated in place, see above.
+		}
 		m = m.Set(index, value)
 		oerr := s.env.Set(id.Literal(), m)
 		if oerr.Type() == object.ERROR {
@@ -474,6 +481,9 @@ func (s *State) deleteMapEntry(idxE *ast.IndexExpression, index object.Object) o
 	}
 	log.LogVf("remove map: %s from %s", index.Inspect(), id)
 	m := obj.(object.Map)
+	if object.Constant(id) {
+		m = m.Append(object.NewMap()) // copy: big maps are updated in place and the change of a constant is refused below.
+	}
 	m, changed := m.Delete(index)
 	if !changed {
 		return object.FALSE
